@@ -31,6 +31,10 @@ pub enum C14Case {
         /// the sink implements write_vectored itself (gathers up to one chunk across the buffers)
         #[serde(default)]
         vectored: bool,
+        /// at `fail_at` the sink does not return an error but accepts 0 bytes (a full fixed-size
+        /// buffer: `&mut [u8]`, `Cursor<&mut [u8]>`)
+        #[serde(default)]
+        zero_when_full: bool,
     },
     /// parse from a scripted source
     Read { base: u16, chunk: Chunk, interrupt_every: u8, bufcap: u16 },
@@ -39,6 +43,8 @@ pub enum C14Case {
 }
 
 struct Sink {
+    zero_when_full: bool,
+    zeros: u32,
     vectored: bool,
     /// refuse to grow beyond this many bytes (a writer that re-sends data must not exhaust memory)
     cap: usize,
@@ -79,6 +85,10 @@ impl Write for Sink {
         let mut n = self.next_chunk().min(buf.len());
         if let Some(f) = self.fail_at {
             if self.data.len() >= f {
+                if self.zero_when_full && self.zeros < 1000 {
+                    self.zeros += 1;
+                    return Ok(0);
+                }
                 return Err(io::Error::new(io::ErrorKind::Other, "scripted failure"));
             }
             n = n.min(f - self.data.len());
@@ -112,6 +122,10 @@ impl Write for Sink {
         let mut n = self.next_chunk().min(total);
         if let Some(f) = self.fail_at {
             if self.data.len() >= f {
+                if self.zero_when_full && self.zeros < 1000 {
+                    self.zeros += 1;
+                    return Ok(0);
+                }
                 return Err(io::Error::new(io::ErrorKind::Other, "scripted failure"));
             }
             n = n.min(f - self.data.len());
@@ -193,13 +207,13 @@ impl Property for C14 {
         C14 { bases }
     }
     fn rule(&self) -> String {
-        format!("fault enumeration: for each of {} small pool packages (unsigned, signed, with files, hand-encoded, rpmbuild-made), Package::write and PackageMetadata::write into scripted sinks - EVERY failure offset 0..len crossed with 16 chunking families (1 byte, fixed 2/3/5/16/17/4096, seeded random 1..64 sequences, with and without interleaved Interrupted errors; six of them sinks with their own gathering write_vectored accepting 1/17/100/300/1000/random bytes per call), plus the no-failure run of each family; Package::parse from scripted sources (same families x BufReader capacities 1/7/64/8192) and from EVERY truncation offset; plus three synthetic packages whose signature or main header exceeds 1 MiB (all read families, sampled write failure offsets and truncations). Non-trivial = a sink script with a short accept or a fault before the end / a source with short reads / a truncation; distinct by construction.", self.bases.len())
+        format!("fault enumeration: for each of {} small pool packages (unsigned, signed, with files, hand-encoded, rpmbuild-made), Package::write and PackageMetadata::write into scripted sinks - EVERY failure offset 0..len crossed with 16 chunking families (1 byte, fixed 2/3/5/16/17/4096, seeded random 1..64 sequences, with and without interleaved Interrupted errors; six of them sinks with their own gathering write_vectored accepting 1/17/100/300/1000/random bytes per call), plus the no-failure run of each family; every offset again with four families of sinks that signal 'full' by accepting 0 bytes instead of failing; Package::parse from scripted sources (same families x BufReader capacities 1/7/64/8192) and from EVERY truncation offset; plus three synthetic packages whose signature or main header exceeds 1 MiB (all read families, sampled write failure offsets and truncations). Non-trivial = a sink script with a short accept or a fault before the end / a source with short reads / a truncation; distinct by construction.", self.bases.len())
     }
     fn assumptions(&self) -> Vec<String> {
         vec!["canonical bytes = write into a Vec; the sinks obey the Write contract (accept >= 1 byte of a non-empty buffer unless they fail)".into()]
     }
     fn required_labels(&self, _t: Tier) -> Vec<&'static str> {
-        vec!["header-over-1MiB", "vectored-sink", "write-ok-short-accepts", "write-failed-at-offset", "read-chunked", "truncated-before-payload", "interrupted"]
+        vec!["full-sink-accepts-zero", "header-over-1MiB", "vectored-sink", "write-ok-short-accepts", "write-failed-at-offset", "read-chunked", "truncated-before-payload", "interrupted"]
     }
     fn phases(&self, _tier: Tier) -> Vec<Phase<C14Case>> {
         let bases = Arc::new(self.bases.clone());
@@ -220,7 +234,13 @@ impl Property for C14 {
             offsets.push(offsets.last().unwrap() + (w.2 as u64 + 2) * FAMILIES.len() as u64);
         }
         let total_w = *offsets.last().unwrap();
+        let mut offsets_z = vec![0u64];
+        for w in &writes {
+            offsets_z.push(offsets_z.last().unwrap() + (w.2 as u64 + 1) * 4);
+        }
+        let offsets_z = Arc::new(offsets_z);
         let writes = Arc::new(writes);
+        let writes_z = writes.clone();
         let offsets = Arc::new(offsets);
         let truncs = Arc::new(truncs);
         let nb = bases.len() as u64;
@@ -238,8 +258,30 @@ impl Property for C14 {
                     let fam = (j % FAMILIES.len() as u64) as usize;
                     let f = j / FAMILIES.len() as u64;
                     let fail_at = if f == 0 { None } else { Some((f - 1) as u32) };
-                    Some(C14Case::Write { base, metadata_only, chunk: FAMILIES[fam].0.clone(), interrupt_every: FAMILIES[fam].1, fail_at, vectored: FAMILIES[fam].2 })
+                    Some(C14Case::Write { base, metadata_only, chunk: FAMILIES[fam].0.clone(), interrupt_every: FAMILIES[fam].1, fail_at, vectored: FAMILIES[fam].2, zero_when_full: false })
                 }),
+            },
+            // the same offsets with sinks that signal "full" by accepting 0 bytes
+            Phase::Enumerate {
+                name: "write-full-sink-accepts-zero",
+                total: {
+                    let o2 = offsets_z.clone();
+                    *o2.last().unwrap()
+                },
+                exhaustive: true,
+                gen: {
+                    let offsets = offsets_z.clone();
+                    let writes = writes_z.clone();
+                    Arc::new(move |i| {
+                        const ZF: [usize; 4] = [0, 6, 9, 13];
+                        let k = offsets.partition_point(|o| *o <= i) - 1;
+                        let (base, metadata_only, _len) = writes[k];
+                        let j = i - offsets[k];
+                        let fam = ZF[(j % 4) as usize];
+                        let fail_at = Some((j / 4) as u32);
+                        Some(C14Case::Write { base, metadata_only, chunk: FAMILIES[fam].0.clone(), interrupt_every: FAMILIES[fam].1, fail_at, vectored: FAMILIES[fam].2, zero_when_full: true })
+                    })
+                },
             },
             Phase::Enumerate {
                 name: "read-chunked",
@@ -280,7 +322,7 @@ impl Property for C14 {
                         // f = 0: no failure; 1..=64: failure offsets spread over the file, odd ones just past a MiB multiple
                         let fail_at = if f == 0 { None } else if f % 2 == 1 { Some((((f / 2) % (len >> 20).max(1) + 1) << 20) as u32 + (f as u32 % 5)) } else { Some((len * f / 65) as u32) };
                         // 1-byte chunk families are too slow for megabytes with interrupts; still included (bounded by file size)
-                        return Some(C14Case::Write { base, metadata_only: f % 3 == 2, chunk: FAMILIES[fam].0.clone(), interrupt_every: FAMILIES[fam].1, fail_at, vectored: FAMILIES[fam].2 });
+                        return Some(C14Case::Write { base, metadata_only: f % 3 == 2, chunk: FAMILIES[fam].0.clone(), interrupt_every: FAMILIES[fam].1, fail_at, vectored: FAMILIES[fam].2, zero_when_full: false });
                     }
                     let j = j - FAMILIES.len() as u64 * 65;
                     let at = if j < 380 { j * len / 380 } else { let k = j - 380; ((k / 5 + 1) << 20) + (k % 5) - 2 };
@@ -359,7 +401,10 @@ fn base_bytes(base: u16) -> std::sync::Arc<Vec<u8>> {
 
 fn inner(case: &C14Case, o: &mut Outcome) -> Result<(), (String, String)> {
     match case {
-        C14Case::Write { base, metadata_only, chunk, interrupt_every, fail_at, vectored } => {
+        C14Case::Write { base, metadata_only, chunk, interrupt_every, fail_at, vectored, zero_when_full } => {
+            if *zero_when_full {
+                o.label("full-sink-accepts-zero");
+            }
             let bytes_arc = base_bytes(*base);
             let bytes: &Vec<u8> = &bytes_arc;
             if *base >= BIG_BASE {
@@ -375,12 +420,12 @@ fn inner(case: &C14Case, o: &mut Outcome) -> Result<(), (String, String)> {
             if *vectored {
                 o.label("vectored-sink");
             }
-            let mut sink = Sink { vectored: *vectored, cap: canonical.len() * 2 + 4096, data: vec![], chunk: chunk.clone(), state: if let Chunk::Seeded(s) = chunk { *s } else { 0 }, calls: 0, interrupt_every: *interrupt_every, fail_at: fail_at.map(|f| f as usize), short_accepts: 0 };
+            let mut sink = Sink { zero_when_full: *zero_when_full, zeros: 0, vectored: *vectored, cap: canonical.len() * 2 + 4096, data: vec![], chunk: chunk.clone(), state: if let Chunk::Seeded(s) = chunk { *s } else { 0 }, calls: 0, interrupt_every: *interrupt_every, fail_at: fail_at.map(|f| f as usize), short_accepts: 0 };
             let r = panics::catch(|| if *metadata_only { pkg.metadata.write(&mut sink) } else { pkg.write(&mut sink) });
             if *interrupt_every > 0 {
                 o.label("interrupted");
             }
-            let what = format!("{} into sink(chunk {:?}, interrupt every {}, fail at {:?}{})", if *metadata_only { "PackageMetadata::write" } else { "Package::write" }, chunk, interrupt_every, fail_at, if *vectored { ", own write_vectored" } else { "" });
+            let what = format!("{} into sink(chunk {:?}, interrupt every {}, fail at {:?}{})", if *metadata_only { "PackageMetadata::write" } else { "Package::write" }, chunk, interrupt_every, fail_at, if *vectored { ", own write_vectored" } else { "" }) + if *zero_when_full { " [the full sink accepts 0 bytes instead of failing]" } else { "" };
             match r {
                 Err(pn) => return Err(("write-panic".into(), format!("{what}: {pn}"))),
                 Ok(Ok(())) => {
